@@ -1,4 +1,4 @@
-#!/usr/bin/env python3
+#!/opt/veriftools/pyvenv/bin/python3
 """Generates /verif/MANIFEST.json from tools/checks.json (claimed checks) + properties.jsonl (everything else -> not_applicable with reason)."""
 import json, os
 V = "/verif"
@@ -8,11 +8,22 @@ for fn in sorted(os.listdir(V + "/tools/checks.d")):
         checks.update(json.load(open(V + "/tools/checks.d/" + fn)))
 props = [json.loads(l) for l in open(V + "/properties.jsonl")]
 na_reasons = json.load(open(V + "/tools/not_applicable.json")) if os.path.exists(V + "/tools/not_applicable.json") else {}
+import jsonschema
+EVS = json.load(open("/root/.vp/EVIDENCE.schema.json"))
+def evidence_ok(i, level):
+    try:
+        ev = json.load(open(V + "/evidence/%s.json" % i))
+        jsonschema.validate(ev, EVS)
+        return ev["level"] == level and ev.get("violations", 0) == 0
+    except Exception:
+        return False
 out_checks, na = [], []
 for p in props:
     i = p["id"]
     c = checks.get(i)
-    if c and c.get("claimed", True):
+    if c and c.get("claimed", True) and not evidence_ok(i, c["level"]):
+        na.append({"property_id": i, "reason": "check is built (harness/%s) but its last run on the unchanged tree has not produced valid, violation-free evidence yet; not claimed until it does" % c["pkg"]})
+    elif c and c.get("claimed", True):
         out_checks.append({
             "property_id": i,
             "quick_cmd": "tools/vcheck %s --tier quick" % i,
